@@ -45,12 +45,12 @@ def render(t):
         "Definition keywords : list (list N) :=\n  [%s\n  ]." % rows, ""]
     lines.append("(* index of each keyword = `Keyword as usize` = position in ALL_KEYWORDS *)")
     for i, w in enumerate(t["keywords"]):
-        lines.append("Definition kw_%s : nat := %d." % (w, i))
+        lines.append("Definition kw_%s : nat := %d%%nat." % (w, i))
     lines.append("")
     lines.append("(* RESERVED_FOR_COLUMN_ALIAS of keywords.rs (Parser::parse_comma_separated stops before these) *)")
     idx = {w: i for i, w in enumerate(t["keywords"])}
     lines.append("Definition reserved_for_column_alias : list nat :=\n  [%s]."
-                 % "; ".join("%d (* %s *)" % (idx[w], w) for w in t["reserved_col"] if w in idx))
+                 % "; ".join("%d%%nat (* %s *)" % (idx[w], w) for w in t["reserved_col"] if w in idx))
     lines.append("")
     lines.append("(* precedences of Expr::parse_subexpr (ast/expr.rs) *)")
     for p in PRECS:
